@@ -6,16 +6,24 @@
 // Part 1: the full grid flags(2^6) x name/mime boundary lengths x data lengths.
 // Part 2: seeded random blobs (random lengths, pairs up to 65535 bytes).
 // Part 3: single-bit flips at every bit of every data byte of sampled records
-//         (decisive), flips of header/size/length bytes (recorded only).
+//
+//	(decisive), flips of header/size/length bytes (recorded only).
+//
 // Part 4: the same corruption seen through a real volume (Store read path).
 package main
 
 import (
 	"bytes"
+	"compress/gzip"
+	"encoding/json"
 	"fmt"
 	"math/rand"
+	"mime/multipart"
+	"net/http"
+	"net/textproto"
 	"os"
 	"path/filepath"
+	"strings"
 	"time"
 
 	"github.com/chrislusf/seaweedfs/weed/storage"
@@ -40,6 +48,163 @@ type spec struct {
 	Lm       uint64 `json:"last_modified"`
 	Ttl      string `json:"ttl"`
 	Fill     int64  `json:"fill_seed"` // seed of the content bytes
+	// Upload != "": the needle is not assembled by the harness but by the upload entry point
+	// needle.CreateNeedleFromRequest from a real http.Request (PUT with Content-Type, or
+	// multipart POST with file name and part Content-Type); NameLen/MimeLen/PairsLen then are
+	// the lengths *sent* (the entry point drops names/mimes >= 256 and pairs >= 64 KiB)
+	Upload string `json:"upload,omitempty"`
+	Gzip   bool   `json:"gzip,omitempty"`
+}
+
+func letters(n int, c byte) string { return strings.Repeat(string(c), n) }
+
+func mimeOf(n int) string {
+	switch {
+	case n == 0:
+		return ""
+	case n < 3:
+		return letters(n, 'x')
+	}
+	return "x/" + letters(n-2, 'm')
+}
+
+// uploadRequest builds the http.Request an upload with these properties is.
+func uploadRequest(s spec) (*http.Request, []byte, string, string, []byte, error) {
+	rng := rand.New(rand.NewSource(s.Fill))
+	data := fill(rng, s.DataLen)
+	if s.Gzip {
+		var zb bytes.Buffer
+		zw := gzip.NewWriter(&zb)
+		_, _ = zw.Write(bytes.Repeat([]byte("compressible "), s.DataLen/13+1))
+		_ = zw.Close()
+		data = zb.Bytes()
+	}
+	name, mimeType := letters(s.NameLen, 'n'), mimeOf(s.MimeLen)
+	url := fmt.Sprintf("http://127.0.0.1/1,%x%08x", s.Id, s.Cookie)
+	q := []string{}
+	if s.Lm != 0 {
+		q = append(q, fmt.Sprintf("ts=%d", s.Lm))
+	}
+	if s.Ttl != "" {
+		q = append(q, "ttl="+s.Ttl)
+	}
+	if len(q) > 0 {
+		url += "?" + strings.Join(q, "&")
+	}
+	var req *http.Request
+	var err error
+	if s.Upload == "PUT" {
+		name = ""
+		req, err = http.NewRequest("PUT", url, bytes.NewReader(data))
+		if err == nil && mimeType != "" {
+			req.Header.Set("Content-Type", mimeType)
+		}
+		if err == nil && s.Gzip {
+			req.Header.Set("Content-Encoding", "gzip")
+		}
+	} else {
+		var body bytes.Buffer
+		mw := multipart.NewWriter(&body)
+		h := textproto.MIMEHeader{}
+		cd := `form-data; name="file"`
+		if name != "" {
+			cd += `; filename="` + name + `"`
+		}
+		h.Set("Content-Disposition", cd)
+		if mimeType != "" {
+			h.Set("Content-Type", mimeType)
+		}
+		if s.Gzip {
+			h.Set("Content-Encoding", "gzip")
+		}
+		pw, e := mw.CreatePart(h)
+		if e != nil {
+			return nil, nil, "", "", nil, e
+		}
+		_, _ = pw.Write(data)
+		_ = mw.Close()
+		req, err = http.NewRequest("POST", url, &body)
+		if err == nil {
+			req.Header.Set("Content-Type", mw.FormDataContentType())
+		}
+	}
+	if err != nil {
+		return nil, nil, "", "", nil, err
+	}
+	var pairs []byte
+	if s.PairsLen > 0 {
+		// one pair header whose JSON form {"Kk":"vvv..."} is exactly PairsLen bytes long
+		v := letters(s.PairsLen-9, 'v')
+		req.Header.Set(needle.PairNamePrefix+"Kk", v)
+		pairs, _ = json.Marshal(map[string]string{"Kk": v})
+	}
+	return req, data, name, mimeType, pairs, nil
+}
+
+// buildUpload runs the real upload entry point.
+func buildUpload(s spec) (*needle.Needle, error) {
+	req, _, _, _, _, err := uploadRequest(s)
+	if err != nil {
+		return nil, err
+	}
+	// as VolumeServer.PostHandler does before it builds the needle (this is what makes the ts
+	// and ttl URL parameters visible to ParseUpload for multipart bodies)
+	if err := req.ParseForm(); err != nil {
+		return nil, err
+	}
+	n, _, _, err := needle.CreateNeedleFromRequest(req, false, 64*1024*1024, new(bytes.Buffer))
+	return n, err
+}
+
+func cloneNeedle(n *needle.Needle) *needle.Needle {
+	c := *n
+	c.Data = append([]byte{}, n.Data...)
+	c.Name = append([]byte{}, n.Name...)
+	c.Mime = append([]byte{}, n.Mime...)
+	c.Pairs = append([]byte{}, n.Pairs...)
+	if n.Ttl != nil {
+		t := *n.Ttl
+		c.Ttl = &t
+	}
+	return &c
+}
+
+// uploadExpectation compares the decoded record with what the request carried, for the
+// parts the statement covers (names and mimes under 256 bytes, pairs under 64 KiB).
+func uploadExpectation(s spec, got *needle.Needle) []string {
+	_, data, name, mimeType, pairs, err := uploadRequest(s)
+	if err != nil || len(data) == 0 {
+		return nil // zero-length payloads lose their metadata (listed finding)
+	}
+	var bad []string
+	if !bytes.Equal(got.Data, data) {
+		bad = append(bad, "data")
+	}
+	if got.IsCompressed() != s.Gzip {
+		bad = append(bad, "compressed")
+	}
+	if len(name) < 256 && (!got.HasName() || string(got.Name) != name) {
+		bad = append(bad, "name")
+	}
+	if len(mimeType) < 256 && (!got.HasMime() || string(got.Mime) != mimeType) {
+		bad = append(bad, "mime")
+	}
+	if s.PairsLen > 0 && s.PairsLen < 65536 && (!got.HasPairs() || !bytes.Equal(got.Pairs, pairs)) {
+		bad = append(bad, "pairs")
+	}
+	if s.PairsLen == 0 && got.HasPairs() {
+		bad = append(bad, "pairs")
+	}
+	if s.Lm != 0 && (!got.HasLastModifiedDate() || got.LastModified != s.Lm&(1<<40-1)) {
+		bad = append(bad, "last_modified")
+	}
+	if s.Ttl != "" {
+		want, _ := needle.ReadTTL(s.Ttl)
+		if !got.HasTtl() || got.Ttl == nil || *got.Ttl != *want {
+			bad = append(bad, "ttl")
+		}
+	}
+	return bad
 }
 
 const allFlags = needle.FlagIsCompressed | needle.FlagHasName | needle.FlagHasMime |
@@ -162,7 +327,7 @@ type visit struct {
 }
 
 func (s *recScanner) VisitSuperBlock(super_block.SuperBlock) error { return nil }
-func (s *recScanner) ReadNeedleBody() bool                        { return s.body }
+func (s *recScanner) ReadNeedleBody() bool                         { return s.body }
 func (s *recScanner) VisitNeedle(n *needle.Needle, offset int64, hdr, body []byte) error {
 	c := *n
 	c.Data = append([]byte{}, n.Data...)
@@ -199,8 +364,29 @@ func (c *ctx) runFile(version needle.Version, specs []spec, label string, keep b
 			}
 			r.Case(map[string]interface{}{"step": "append+decode", "version": version, "specs": specs[i:hi]})
 		}
-		n := build(s)
-		exp := build(s) // independent copy: Append may touch the needle it is given
+		var n, exp *needle.Needle
+		if s.Upload != "" {
+			var uerr error
+			func() {
+				defer func() {
+					if p := recover(); p != nil {
+						uerr = fmt.Errorf("panic: %v", p)
+					}
+				}()
+				n, uerr = buildUpload(s)
+			}()
+			r.Eval(1)
+			if uerr != nil || n == nil {
+				r.Violation(lib.Sig{"op": "upload", "class": "entry-point-error", "input": inputClass(s), "method": s.Upload},
+					map[string]interface{}{"spec": s, "error": fmt.Sprint(uerr)})
+				continue
+			}
+			exp = cloneNeedle(n)
+			r.Count("upload_records", 1)
+		} else {
+			n = build(s)
+			exp = build(s) // independent copy: Append may touch the needle it is given
+		}
 		ns := uint64(1600000000000000000) + uint64(s.Id)*1000003
 		n.AppendAtNs = ns
 		var off uint64
@@ -262,6 +448,13 @@ func (c *ctx) runFile(version needle.Version, specs []spec, label string, keep b
 					map[string]interface{}{"spec": s, "error": derr.Error()})
 				continue
 			}
+			if s.Upload != "" {
+				r.Eval(1)
+				if bad := uploadExpectation(s, got); len(bad) > 0 {
+					r.Violation(lib.Sig{"op": "decode", "class": "differs-from-upload-request", "input": inputClass(s), "method": s.Upload},
+						map[string]interface{}{"spec": s, "fields": bad, "how": how, "version": version})
+				}
+			}
 			core, meta := diff(exp, got, version, ns, false)
 			if len(core) > 0 {
 				r.Violation(lib.Sig{"op": "decode", "class": "blob-differs", "input": inputClass(s), "how": how, "version": fmt.Sprint(version)},
@@ -275,7 +468,7 @@ func (c *ctx) runFile(version needle.Version, specs []spec, label string, keep b
 					map[string]interface{}{"spec": s, "fields": meta, "how": how, "version": version})
 			}
 		}
-		r.Nontrivial(fmt.Sprintf("v%d/f%02x/n%d/m%d/d%d/p%d", version, s.Flags, s.NameLen, s.MimeLen, s.DataLen, s.PairsLen))
+		r.Nontrivial(fmt.Sprintf("v%d/f%02x/n%d/m%d/d%d/p%d/%s%v", version, s.Flags, s.NameLen, s.MimeLen, s.DataLen, s.PairsLen, s.Upload, s.Gzip))
 		r.Count(fmt.Sprintf("records_v%d", version), 1)
 		if s.DataLen == 0 {
 			r.Count("records_empty_payload", 1)
@@ -573,7 +766,7 @@ func randomSpec(rng *rand.Rand, id uint64) spec {
 
 func main() {
 	r := lib.Start("C02", "exploration")
-	r.SetRule("blobs = (needle version 2|3) x flag set (compressed,name,mime,lastModified,ttl,pairs; a field is present iff its flag is set) x name/mime length x data length x pairs length; each is appended with needle.Append to a real DiskFile, decoded with ReadData and ReadNeedleBlob+ReadBytes and compared field-wise, record offsets/lengths checked for 8-byte alignment and contiguity, every file walked with ScanVolumeFileFrom (with and without bodies) and the visit sequence compared with the write sequence; single-bit flips at every bit of every data byte of sampled records must give an error. distinct = distinct (version, flags, name len, mime len, data len, pairs len); non-trivial = appended and decoded back")
+	r.SetRule("blobs = (needle version 2|3) x flag set (compressed,name,mime,lastModified,ttl,pairs; a field is present iff its flag is set) x name/mime length x data length x pairs length; each is appended with needle.Append to a real DiskFile, decoded with ReadData and ReadNeedleBlob+ReadBytes and compared field-wise, record offsets/lengths checked for 8-byte alignment and contiguity, every file walked with ScanVolumeFileFrom (with and without bodies) and the visit sequence compared with the write sequence; single-bit flips at every bit of every data byte of sampled records must give an error; additionally needles built by the upload entry point needle.CreateNeedleFromRequest from real PUT / multipart POST requests (file name and mime lengths 0,1,254,255,256,257,300, pair headers of 20 and 65534..65537 JSON bytes, ts/ttl parameters, gzip) go through the same append/decode/scan checks and are compared with what the request carried. distinct = distinct (version, flags, name len, mime len, data len, pairs len); non-trivial = appended and decoded back")
 	r.Assume("only flips inside the data bytes are decisive (the statement promises detection of altered data bytes); flips in size/length/flags bytes are recorded as statistics")
 	r.Assume("LastModified is compared on its stored 40 bits; a TTL flag always comes with a non-empty TTL and a pairs flag with PairsSize=len(Pairs), as CreateNeedleFromRequest produces them")
 	c := &ctx{r: r}
@@ -764,11 +957,51 @@ func main() {
 		_ = os.Remove(path)
 	}
 
+	// ---- Part 5: what the upload entry point builds --------------------------------
+	// real http.Requests through needle.CreateNeedleFromRequest (ParseUpload): file name and
+	// mime lengths around the 256-byte limit, pair headers around the 64 KiB limit, ts/ttl
+	// parameters, gzip; then Append / decode / scan exactly as for the other records
+	{
+		lens := []int{0, 1, 254, 255, 256, 257, 300}
+		dls := []int{1, 9, 300, 4096, 40}
+		var specs []spec
+		add := func(sp spec) {
+			sp.Id, sp.Cookie, sp.Fill = id, uint32(id*2654435761)|1, int64(id)
+			if id%2 == 0 {
+				sp.Lm = 1500000000 + id
+			}
+			if id%3 == 0 {
+				sp.Ttl = ttls[int(id)%len(ttls)]
+			}
+			id++
+			specs = append(specs, sp)
+		}
+		for i, nl := range lens {
+			for j, ml := range lens {
+				add(spec{Upload: "POST", NameLen: nl, MimeLen: ml, DataLen: dls[(i+j)%len(dls)]})
+			}
+			for _, pl := range []int{20, 65534, 65535, 65536, 65537} {
+				add(spec{Upload: "POST", NameLen: nl, MimeLen: lens[(i+3)%len(lens)], PairsLen: pl, DataLen: dls[i%len(dls)]})
+			}
+			add(spec{Upload: "PUT", MimeLen: nl, DataLen: dls[i%len(dls)]})
+			add(spec{Upload: "PUT", MimeLen: nl, DataLen: 2000, Gzip: true})
+			add(spec{Upload: "PUT", MimeLen: nl, PairsLen: 65535, DataLen: 17})
+			add(spec{Upload: "PUT", MimeLen: nl, PairsLen: 65536, DataLen: 17})
+			add(spec{Upload: "POST", NameLen: nl, MimeLen: nl, DataLen: 1000, Gzip: true})
+			add(spec{Upload: "POST", NameLen: nl, MimeLen: nl, DataLen: 0})
+		}
+		for _, version := range []needle.Version{needle.Version2, needle.Version3} {
+			c.runFile(version, specs, fmt.Sprintf("upload-v%d", version), false)
+		}
+		r.Sample(map[string]interface{}{"upload_spec": specs[len(specs)/2]})
+		r.Note("upload_name_mime_lengths_sent", lens)
+	}
+
 	// ---- Part 4: through a real volume --------------------------------------
 	c.volumeCorruption(r.SubRng("c02-volume"), r.Pick(40, 300))
 
 	if r.Counter("records_v2") == 0 || r.Counter("records_v3") == 0 || r.Counter("data_bit_flips") == 0 ||
-		r.Counter("scan_visits") == 0 || r.Counter("volume_reads_of_corrupted_blobs") == 0 {
+		r.Counter("scan_visits") == 0 || r.Counter("volume_reads_of_corrupted_blobs") == 0 || r.Counter("upload_records") == 0 {
 		r.Inconclusive("a part of the check observed nothing")
 	}
 	if len(flagsSeen) != 64 {
